@@ -1618,7 +1618,7 @@ def oracle_c15(ctx, focus):
             # (also for streams WITHOUT any separated pair whose timings are not the neutral ones: they must behave like the
             # same stream with neutral timings — a hint that no token gave must not appear)
             slow = any(tk["end"] - tk["start"] != 10 for tk in toks)
-            if (sep_positions or slow) and len(comma_reqs) < (4000 if ctx.tier != "thorough" else 60000):
+            if (sep_positions or slow) and len(comma_reqs) < (30000 if ctx.tier != "thorough" else 200000):
                 cut = {j for (_, j) in sep_positions}
                 new, remap, t_ = [], {}, 0
                 for j, tk in enumerate(toks):
